@@ -23,6 +23,18 @@ THEOREMS = [
     "Mpc.Sym.C04_both_labels_leak",
     "Mpc.Sym.C04_ot_range_guard",
     "Mpc.Sym.C04_ot_range_unguarded_leaks",
+    # a garbler process: overlapping sessions on one shared circuit value, scratch from the circuit's pool
+    "Mpc.GProc.garble_split",
+    "Mpc.GProc.pinv_step",
+    "Mpc.GProc.C04_proc_serves_own",
+    "Mpc.GProc.C04_proc_digest_serves_own",
+    "Mpc.GProc.C04_proc_ot_serves_own_wires",
+    "Mpc.Sym.servedView_own",
+    "Mpc.Sym.C04_process_offset_not_in_span",
+    "Mpc.Sym.C04_process_no_two_labels_of_a_wire",
+    "Mpc.GProc.C04_process_secrecy",
+    "Mpc.GProc.C04_proc_early_release_serves_foreign",
+    "Mpc.Sym.C04_foreign_wires_two_labels",
 ]
 
 # Label-carrying hand-overs of the garbler side to the connection / the OT
@@ -65,6 +77,13 @@ def run(ctx):
                {"vars": 1, "decls": 1, "resets": 0})
     ctx.advise("streaming garbler writes only table rows (label bytes) into the stream besides gate headers",
                len(re.findall(r"copy\(buf\[\*bufpos:\], bytes\)", sg)), 1)
+    # The process model (Model/GarblerProc.lean, early = false) has no Release between Garble and the last read of the
+    # garbling.  Advisory only (a deferred or trailing Release is fine and reads differently in source order): what
+    # decides is the `overlap` sessions below, whose OTs and result loops are compared with the model line by line.
+    seq = ctx.callseq("circuit", "Garbler", ["Release", "Send", "ReceiveLabel"])
+    last_read = max([i for i, x in enumerate(seq) if not x.endswith("Release")] or [-1]) if isinstance(seq, list) else -1
+    ctx.advise("circuit.Garbler: no Release call in source order before its last read of the garbling (OT Send, result loop)",
+               [x for x in (seq[:last_read] if isinstance(seq, list) else [seq]) if str(x).endswith("Release")], [])
     quick = ctx.tier == "quick"
     # the shared generic definitions are tied byte-exactly to the Go code (C02's correspondence)
     ctx.build_drv("drv_c02")
@@ -94,6 +113,27 @@ def run(ctx):
                 ctx.distinct.add(hashlib.sha1(line.encode()).digest())
                 k += 1
             ctx.evaluations += k
+        # a garbler PROCESS: 2..4 overlapping sessions on one shared circuit value, evaluators stalling at seeded protocol
+        # points, oracle over the union of everything obtained in all sessions; the observed event order is replayed on the
+        # Lean process model (drv_c04)
+        ctx.build_drv()
+        ov_runs = [(ctx.seed, 150 if quick else 2500)]
+        for s, n in ov_runs:
+            ops, out, meta = ctx.run_hx("overlap", n, seed=s, timeout=2400, tag="-proc")
+            ctx.absorb_meta(meta, prefix="overlap_")
+            ctx.correspond("whose garbling every OT served / result loop decoded, overlapping sessions on one shared circuit "
+                           "vs the process model (GProc.runDigest false)", ops, out)
+            for line in open(ops, errors="replace"):
+                ctx.distinct.add(hashlib.sha1(line.encode()).digest())
+        oc = ctx.coverage.get("counters", {})
+        ctx.oblige("overlap generator: sessions really overlapped, stalled at every kind of protocol point, scratch put back by "
+                   "failing Garble calls, and the tape reconstruction of the secrets matched the wires handed to the OT",
+                   oc.get("overlap_cases_with_overlapping_sessions", 0) > 0
+                   and all(oc.get("overlap_stalled_at_" + k, 0) > 0 for k in ("init", "req", "flush1", "out"))
+                   and oc.get("overlap_sessions_garble_failed", 0) > 0
+                   and oc.get("overlap_truth_equals_wires_handed_to_ot", 0) > 0
+                   and (oc.get("overlap_truth_differs_from_wires_handed_to_ot", 0) == 0 or bool(ctx.fails)),
+                   str({k: v for k, v in oc.items() if k.startswith("overlap_")}))
         c = ctx.coverage.get("counters", {})
         ctx.coverage["window_positions_scanned"] = sum(v for k, v in c.items() if k.endswith("window_positions"))
         if ctx.widen:
@@ -102,15 +142,24 @@ def run(ctx):
                     ops, out, meta = ctx.run_hx(mode, n, seed=s, tag="-widen" + ("-long" if extra else ""), timeout=2400,
                                                 extra_args=extra)
                     ctx.absorb_meta(meta, prefix="widen_")
+                ops, out, meta = ctx.run_hx("overlap", 1500, seed=s, tag="-widen-proc", timeout=2400)
+                ctx.absorb_meta(meta, prefix="widen_")
                 if ctx.fails:
                     break
     ctx.coverage["rule"] = ("sessions of the three garbler protocols with real OT on the wire; every byte offset of the complete "
-                            "garbler->evaluator stream is a 16-byte window; distinct = distinct (circuit/program, inputs, OT) lines")
+                            "garbler->evaluator stream is a 16-byte window; processes of 2..4 overlapping sessions on one shared "
+                            "circuit value (deterministic sequential scheduler over evaluator stall points, 4 policies, failing "
+                            "Garble calls), oracle over the union of all sessions' streams and OT results against secrets "
+                            "re-derived from the recorded tapes; distinct = distinct (circuit/program, inputs, OT, schedule) lines")
     ctx.assumptions += [
         "symbolic (free-hash) model: no computational secrecy claim; probability-2^-128 coincidences are outside it",
         "the theorem is stated for every hash model `code` that separates x from x xor R (a family from the coarsest to "
         "arbitrarily fine codes); the ideal injective code is not constructible as a Lean type (it would be circular)",
         "OT is ideal in the model (C06); the OT implementations' own messages are scanned by the oracle only",
+        "process model: atoms of different sessions are different (independent random tapes, per-session hash key); "
+        "sync.Pool / atomic.Pointer are linearizable objects (as in C17); the executed model takes the most recently Put scratch",
+        "overlap harness: one P (GOMAXPROCS(1)) and no collection inside a case, so that a Put and the next Get on the "
+        "circuit's sync.Pool meet; schedules are sequential at the granularity of evaluator stall points",
     ]
     return ctx.finish(
         "Theorems (Props/C04.lean): in the symbolic free-hash instance of the SAME generic garbling/protocol definitions that "
@@ -119,4 +168,8 @@ def run(ctx):
         "bits; so R is not in the span of the view. C04_tweak_reuse_leaks: reusing a tweak across two AND gates sharing an "
         "input leaks R (the pre-fix streaming mode); C04_both_labels_leak (sha2pc OutputHints). Oracle on the real code: "
         "sliding 16-byte window over every offset of the garbler->evaluator stream of whole-circuit, streaming and sha2pc "
-        "sessions: no window equals R, no two windows XOR to R; OT receiver got exactly the chosen labels.")
+        "sessions: no window equals R, no two windows XOR to R; OT receiver got exactly the chosen labels. Process level "
+        "(Model/GarblerProc.lean on the C17 ownership model): for the code as it is every session's OT and result loop read "
+        "the session's own garbling on every history (C04_proc_serves_own, C04_proc_ot_serves_own_wires), hence the union of "
+        "all evaluators' views does not span any session's offset (C04_process_secrecy); harness mode overlap runs the real "
+        "Garbler/Evaluator in overlapping sessions on one shared circuit and judges the union of everything obtained.")
